@@ -1,6 +1,7 @@
 package api
 
 import (
+	"net/url"
 	"strings"
 	"time"
 
@@ -406,4 +407,56 @@ func verifH_C18_ocra() {
 		verifAssert(got, "response-is-a-validation-result")
 		verifAssert(resp.Valid == wok, "verdict-is-the-library-verdict-for-the-request-fields")
 	}
+}
+
+// the textual form of the symbolic URL the builder symbols return (net/url's real String natively)
+func verifStub_URLString(u *url.URL) string { return u.Scheme + "://" + u.Host + u.Path }
+
+// /otp/url: the URL builder of the requested type is called with exactly the request's issuer,
+// account, secret, period, digits and hash (unknown spellings fall back to 6 / SHA1), and its
+// textual form is returned; an unknown type is a client error.
+//
+//verif:harness prop=C18 name=url
+//verif:cases quick kind=0,1,2 dt=0,2,5 at=0,3,4
+//verif:cases thorough kind=0,1,2 dt=0..5 at=0..4
+//verif:replace github.com/ja7ad/otp.GenerateTOTPURL=verifStubAPI_GenerateTOTPURL
+//verif:replace github.com/ja7ad/otp.GenerateHOTPURL=verifStubAPI_GenerateHOTPURL
+//verif:replace (*net/url.URL).String=verifStub_URLString
+//verif:opt maxpaths=3000
+func verifH_C18_url() {
+	kind := []string{"totp", "hotp", "motp"}[verifCase("kind")]
+	secret, issuer, account := verifASCII("secret", 2), verifASCII("issuer", 2), verifASCII("account", 2)
+	dt, at := verifDigitsText[verifCase("dt")], verifAlgText[verifCase("at")]
+	period := verifUint("period")
+	ctx := verifHTTP("POST", "/otp/url", "", "", otpURLGenerateReq{Type: kind, Secret: secret, Issuer: issuer, AccountName: account, Period: period, Digits: dt, Algorithm: at}, false)
+	verifBeginOp()
+	routers(ctx)
+	verifAfterRequest()
+	var resp otpURLGenerateResp
+	got := verifHTTPResp(ctx, &resp)
+	status := verifHTTPStatus(ctx)
+	verifObserve("status", status)
+	if verifOr(verifOr(verifBlank(secret), verifBlank(issuer)), verifBlank(account)) {
+		verifAssert(status == 400, "blank-required-field-is-a-client-error")
+		return
+	}
+	if kind == "motp" {
+		verifAssert(status == 400, "unknown-type-is-a-client-error")
+		return
+	}
+	in := otp.URLParam{Issuer: issuer, AccountName: account, Secret: secret, Period: period, Digits: otp.DigitsFromStr(dt), Algorithm: otp.AlgorithmFromStr(at)}
+	var want *url.URL
+	var werr error
+	if kind == "totp" {
+		want, werr = otp.GenerateTOTPURL(in)
+	} else {
+		want, werr = otp.GenerateHOTPURL(in)
+	}
+	if werr != nil {
+		verifAssert(status != 200, "library-error-is-not-a-success")
+		return
+	}
+	verifAssert(status == 200, "success-status")
+	verifAssert(got, "response-is-a-url")
+	verifAssert(verifStrEq(resp.URL, want.String()), "url-is-the-library-result-for-the-request-fields")
 }
